@@ -46,7 +46,7 @@ def run(rep, tier, only=None):
     d = snapshot.scratch_dir('c49')
     import shutil
     shutil.copy('/verif/vf/pysym/h_c49_base.py', d)
-    plen, nsym, T = (2, 2, 150) if tier == 'quick' else (3, 3, 900)
+    plen, nsym, T = (2, 2, 300) if tier == 'quick' else (3, 3, 900)
     rep.functions += ['Cython/StringIOTree.py: StringIOTree.__init__, write, insertion_point, insert, commit, getvalue, '
                       '_collect_in, copyto, empty, allmarkers']
     rep.bounds += ['all histories of <= %d operations over {write+marker, insertion_point, insert(non-empty tree), commit, insert(empty tree)} '
